@@ -602,6 +602,9 @@ class Class(metaclass=mixin.MixinMeta):  # pylint: disable=undefined-variable
   def compute_mro(self):
     """Compute the class precedence list (mro) according to C3."""
     bases = abstract_utils.get_mro_bases(self.bases())
+    base_classes = [base for base in bases if isinstance(base, Class)]
+    if len({id(base) for base in base_classes}) != len(base_classes):
+      raise mro.MROError([base_classes])
     bases = [[self]] + [list(base.mro) for base in bases] + [list(bases)]
     base2cls = {}
     newbases = []
